@@ -30,7 +30,9 @@ EXPLANATION = (
     "call-out, and connectionLost errbacks only under `bodyDecoder is None and state != DONE` and does so on every such path.  finite-exhaustive [parser/interim-range, "
     "parser/no-body-branch, parser/no-body-codes]: the guard of the reset branch is resolved for every status code 0..999 (reset, and no firing, exactly for 100..199); for "
     "every truth assignment of (code in NO_BODY_CODES, method == HEAD) no decoder is reachable / length is 0 when either holds and a decoder is reachable when neither does; "
-    "NO_BODY_CODES evaluates to {204, 304}.  (K2) THE REQUEST DEFERRED FIRES EXACTLY ONCE - structural [protocol/*]: _finishedRequest is fired/chained only where the "
+    "NO_BODY_CODES evaluates to {204, 304}.  structural [parser/interim-resets-message-state]: the per-message fields (what the connectionMade closure initialises, derived) that the "
+    "next response's parsing / framing decision reads (derived from the non-interim part of allHeadersReceived and the line/header handlers, through their call closures) are all "
+    "stored or deleted on the interim branch - so nothing a 1xx response carried (Content-Length, Transfer-Encoding, Connection) reaches the final response's framing.  (K2) THE REQUEST DEFERRED FIRES EXACTLY ONCE - structural [protocol/*]: _finishedRequest is fired/chained only where the "
     "refined state set is exactly {TRANSMITTING} and the state is changed before the firing, TRANSMITTING is entered only from QUIESCENT, the 6-state connectionLost "
     "matrix is complete and terminal, lost / parse-error / writeTo-error paths reach _disconnectParser (which detaches the parser before calling it) or errback the request, "
     "abort Deferreds are reset, and no per-request attribute is written after a call-out that can reach user code unless the state left QUIESCENT first.  (K3) THE BODY "
@@ -41,10 +43,12 @@ EXPLANATION = (
     "noMoreData() is asked once, only in the decoder branch, inside handlers for PotentialDataLoss and _DataLoss; every outcome (normal, each handler) passes through "
     "exactly one _bodyDataFinished with, respectively, the default (ResponseDone), Failure() of the PotentialDataLoss, Failure(ResponseFailed(...)).  (K5) THE BODY "
     "DELIVERED EQUALS THE BODY RECEIVED - structural only for the forwarding links [forward/identity, parser/decoder-wiring: bytes are handed unchanged from rawDataReceived "
-    "to the decoder, the decoder is wired to response._bodyDataReceived / _finished] and by inclusion of C22 (chunked decoder; kinds as declared there); the value-level "
+    "to the decoder, the decoder is wired to response._bodyDataReceived / _finished] and by inclusion of C22 (chunked decoder; kinds as declared there); finite-exhaustive [decoder/identity-orderings]: http._IdentityTransferDecoder over every ordering of segment length and remaining length "
+    "(<, =, >, 0, unknown; one and two segments; noMoreData re-entrantly from the finish callback and afterwards): exact body bytes, rest to the finish callback once, a complete "
+    "body never reports loss, an incomplete one _DataLoss, unknown length PotentialDataLoss (order-only domain argument checked on the code); the value-level "
     "clause (identity decoder boundary, Response buffering before deliverBody, flush order, pause/resume) has BOUNDED evidence only [client/evaluated-histories]: "
     "HTTP11ClientProtocol, HTTPClientParser (with LineReceiver), Response and both transfer decoders are instantiated as model objects whose methods are the repository's "
-    "functions (interpreted over the AST, never imported) and fed generated responses (Content-Length, chunked, close-delimited, HEAD, 204, 304, 1xx interims, LF-only "
+    "functions (interpreted over the AST, never imported) and fed generated responses (Content-Length, chunked, close-delimited, HEAD, 204, 304, 1xx interims - also interims carrying framing headers of their own -, bytes following the body in the same segment, LF-only "
     "lines) whole and in segments, with the connection lost in status line / headers / body, early, late and transport-resuming consumers, persistent connections; the "
     "property statement is the oracle per history.  Why bounded only: the buffering clause is a statement about byte VALUES across re-entrant callbacks (a consumer that "
     "resumes the transport inside dataReceived), for which no shape-level decider was found that is silent on the behaviour-preserving refactors of the buffer handling; "
@@ -510,6 +514,19 @@ def _mro_method(classes, name):
     return None
 
 
+def _call_target(classes, c):
+    """the method a call resolves to: self.<m>(...) along ``classes`` (first wins) or <Class>.<m>(self, ...) in that class and its bases as listed"""
+    if not (isinstance(c, ast.Call) and isinstance(c.func, ast.Attribute) and isinstance(c.func.value, ast.Name)):
+        return None
+    if c.func.value.id == "self":
+        return _mro_method(classes, c.func.attr)
+    if c.args and src(c.args[0]) == "self":
+        names = [k.name for k in classes]
+        if c.func.value.id in names:
+            return _mro_method(classes[names.index(c.func.value.id):], c.func.attr)
+    return None
+
+
 def _closure_uses(classes, roots, seen=None):
     """(loads, stores) over the self.<m>() call closure of the given function nodes (methods resolved along ``classes``, first wins; <Base>.<m>(self) calls too)"""
     seen = set() if seen is None else seen
@@ -524,15 +541,9 @@ def _closure_uses(classes, roots, seen=None):
         loads |= l
         stores |= s_
         for c in walk_local(fn):
-            if isinstance(c, ast.Call) and isinstance(c.func, ast.Attribute):
-                tgt = None
-                if isinstance(c.func.value, ast.Name) and c.func.value.id == "self":
-                    tgt = _mro_method(classes, c.func.attr)
-                elif isinstance(c.func.value, ast.Name) and c.args and src(c.args[0]) == "self":
-                    base = [k for k in classes if k.name == c.func.value.id]
-                    tgt = _mro_method(base, c.func.attr) if base else None
-                if tgt is not None:
-                    todo.append(tgt)
+            tgt = _call_target(classes, c)
+            if tgt is not None:
+                todo.append(tgt)
     return loads, stores
 
 
@@ -567,10 +578,9 @@ def _s_interim_reset(ctx, mod):
             for n in ast.walk(a):
                 if isinstance(n, ast.Attribute) and isinstance(n.value, ast.Name) and n.value.id == "self":
                     (loads if isinstance(n.ctx, ast.Load) else stores).add(n.attr)
-                if isinstance(n, ast.Call) and isinstance(n.func, ast.Attribute) and isinstance(n.func.value, ast.Name) and n.func.value.id == "self":
-                    t = _mro_method(classes, n.func.attr)
-                    if t is not None:
-                        calls.append(t)
+                t = _call_target(classes, n)
+                if t is not None:
+                    calls.append(t)
         l2, s2 = _closure_uses(classes, calls)
         return loads | l2, stores | s2
     read, _ = uses(only_final)
@@ -1256,6 +1266,16 @@ def _client_evaluated(ctx):
 
 
 MUTANTS = [
+    Mutant("interim-reset-keeps-connection-headers", P, "            self.connectionMade()\n            del self.response\n",
+           "            self.headers = Headers()\n            self.state = STATUS\n            self._partialHeader = None\n            del self.response\n",
+           expect_rule="parser/interim-resets-message-state"),
+    Mutant("interim-reset-only-the-line-state", P, "            self.connectionMade()\n            del self.response\n",
+           "            self.state = STATUS\n            self._partialHeader = None\n            self.connHeaders = Headers()\n            del self.response\n",
+           expect_rule="parser/interim-resets-message-state"),
+    Mutant("identity-decoder-remaining-length-goes-negative", H, "            self.dataCallback = self.finishCallback = None\n            self.contentLength = 0\n\n            dataCallback(data[:contentLength])",
+           "            self.dataCallback = self.finishCallback = None\n            self.contentLength -= len(data)\n\n            dataCallback(data[:contentLength])", expect_rule="decoder/identity-orderings"),
+    Mutant("identity-decoder-finishes-one-byte-late", H, "        elif len(data) < self.contentLength:\n            self.contentLength -= len(data)", "        elif len(data) <= self.contentLength:\n            self.contentLength -= len(data)",
+           expect_rule="decoder/identity-orderings"),
     Mutant("errback-even-when-done", P, "        elif self.state != DONE:\n            if self._everReceivedData:", "        else:\n            if self._everReceivedData:"),
     Mutant("interim-range-inclusive-200", P, "        if 100 <= self.response.code < 200:", "        if 100 <= self.response.code <= 200:"),
     Mutant("zero-length-skips-finished", P,
@@ -1298,6 +1318,9 @@ MUTANTS = [
     Mutant("no-body-codes-drop-304", P, "    NO_BODY_CODES = {NO_CONTENT, NOT_MODIFIED}", "    NO_BODY_CODES = {NO_CONTENT}"),
 ]
 SILENT = [
+    Silent("interim-reset-through-the-base-class", P, "            self.connectionMade()\n            del self.response\n", "            HTTPParser.connectionMade(self)\n            del self.response\n"),
+    Silent("identity-decoder-remaining-length-by-subtraction", H, "            self.dataCallback = self.finishCallback = None\n            self.contentLength = 0\n\n            dataCallback(data[:contentLength])",
+           "            self.dataCallback = self.finishCallback = None\n            self.contentLength -= contentLength\n\n            dataCallback(data[:contentLength])"),
     Silent("interim-reset-in-helper", P, "            self.connectionMade()\n            del self.response\n            return\n", "            self._resetForNextResponse()\n            return\n",
            more=[(P, "    def connectionLost(self, reason: Failure | None = None) -> None:\n        if self.bodyDecoder is not None:",
                   "    def _resetForNextResponse(self):\n        self.connectionMade()\n        del self.response\n\n    def connectionLost(self, reason: Failure | None = None) -> None:\n        if self.bodyDecoder is not None:")]),
